@@ -199,7 +199,7 @@ def check_property(prop, tier, seed, jobs):
             if v["confirmed"]:
                 violations.append((res, v, oid))
             else:
-                base = "%s|%s|%s" % (res["contract"], res["cfg"], v["obligation"].split("[")[0])
+                base = "%s|%s|%s" % (res["contract"], res["cfg"], run.base_name(v["obligation"]))
                 if base in locked or oid in locked:
                     violations.append((res, v, oid))
                 else:
@@ -275,7 +275,7 @@ def update_lock(jobs):
     for res in results:
         for ob in res["obligations"]:
             if ob["status"] == "proved":
-                proved.add("%s|%s|%s" % (res["contract"], res["cfg"], ob["name"].split("[")[0]))
+                proved.add("%s|%s|%s" % (res["contract"], res["cfg"], run.base_name(ob["name"])))
     with open(os.path.join(ROOT, "obligations.lock.json"), "w") as f:
         json.dump(dict(note="obligation ids discharged on the pinned tree (generated by ./check --update-lock)",
                        proved=sorted(proved)), f, indent=0)
